@@ -499,8 +499,10 @@ fn corner_docs() -> Vec<(String, String)> {
         v("imgrt:0:18446744073709551615", ""),
         v("imgrt:4294967296:0", ""),
         v("imgrt:4611686018427387903:0", ""),
-        // PENDING(coordinator): heights >= 2^62 with width 0 do not round-trip on the current tree (reported)
-        // v("imgrt:4611686018427387904:0", ""), v("imgrt:9223372036854775808:0", ""), v("imgrt:18446744073709551615:0", ""),
+        v("imgrt:4611686018427387904:0", ""),
+        v("imgrt:9223372036854775808:0", ""),
+        v("imgrt:18446744073709551615:0", ""),
+        v("image", r#"{"size":[4611686018427387904,0],"channels":4,"data":""}"#),
         v("vdeep:container:300", ""),
         v("vdeep:flex:300", ""),
         v("vdeep:text:300", ""),
